@@ -485,6 +485,23 @@ func c19ParseInProcess(c *core.Ctx, cs c19Case) parseResult {
 		c.Cover("error_messages", msgClass(ref.Message))
 	}
 	if len(variants) == 1 {
+		// The caller's byte slice belongs to the caller: parsing it must leave it as it was, so
+		// that parsing (or showing) the same slice again gives the same result.
+		buf := []byte(s.Src)
+		cfg := &parser.ParserConfig{Funcs: c19Funcs(s.Native)}
+		for k := 0; k < 2; k++ {
+			func() {
+				defer func() { _ = recover() }()
+				_, _ = parser.ParseProgram(buf, cfg)
+			}()
+			c.Count("source_buffer_checks", 1)
+			if string(buf) != s.Src {
+				c.Violation("parse-nondeterminism", "source-buffer-modified",
+					fmt.Sprintf("ParseProgram changed the source bytes it was given (%s): %s", s.Gen, firstDiff(s.Src, string(buf))),
+					"the source slice is unchanged after parsing", core.Clip(string(buf), 600), cs)
+				return parseResult{ref: ref, deterministic: false}
+			}
+		}
 		return parseResult{ref: ref, deterministic: true}
 	}
 	class, comp, detail := classifyParseDiff(s.Src, variants)
